@@ -49,67 +49,73 @@ def ringRun (s : Str) : Str × Str := s.span fun c => c.isDigit || c == '%'
 def appendDesc (b : List (Nat × List Desc)) (k : Nat) (d : Desc) : List (Nat × List Desc) :=
   pySet b k (((b.lookup k).getD []) ++ [d])
 
+/-- one iteration of the `for token in smile_iter` loop: consumes at least one character of the
+    non-empty text `tok :: rest`, returns the remaining text -/
+def stripStep (tok : Char) (rest : Str) (st : StripState) : Py (Str × StripState) :=
+  if tok == '[' then
+    match rest with
+    | [] => throw PyErr.other                        -- next() on the exhausted iterator
+    | pk :: rest' =>
+      if descriptorKinds.contains pk then
+        match takeBracket rest' with
+        | none => throw PyErr.other
+        | some (label, after) =>
+          let desc := pk :: label
+          -- leading descriptor: the order symbol follows it
+          let leading := match after with
+            | c :: after' => if st.nodeCount == 0 then (bondToOrder2.lookup c).map fun o => (o, after') else none
+            | [] => none
+          match leading with
+          | some (o, after') =>
+            pure (after', { st with bonding := appendDesc st.bonding st.prevNode (desc ++ orderText o) })
+          | none =>
+            match st.currentOrder with
+            | some o =>
+              pure (after, { st with bonding := appendDesc st.bonding st.prevNode (desc ++ orderText o),
+                                     currentOrder := none, smile := st.smile.dropLast })
+            | none =>
+              pure (after, { st with bonding := appendDesc st.bonding st.prevNode (desc ++ orderText 2) })
+      else
+        match takeBracket (pk :: rest') with
+        | none => throw PyErr.other
+        | some (inner, after) => do
+          let (atom, annoStr) := splitAtomAnno inner
+          let a ← parseFrag annoStr
+          let old := (st.attrs.lookup st.nodeCount).getD []
+          let merged := a.foldl (fun acc (k, v) => pySet acc k v) old
+          pure (after, { st with attrs := pySet st.attrs st.nodeCount merged,
+                                 smile := st.smile ++ ['['] ++ atom ++ [']'],
+                                 prevNode := st.nodeCount, nodeCount := st.nodeCount + 1, currentOrder := none })
+  else if tok == '(' then
+    pure (rest, { st with anchor := st.anchor ++ [st.prevNode], smile := st.smile ++ [tok] })
+  else if tok == ')' then
+    match st.anchor.getLast? with
+    | none => throw PyErr.index
+    | some a => pure (rest, { st with prevNode := a, anchor := st.anchor.dropLast, smile := st.smile ++ [tok] })
+  else match bondToOrder2.lookup tok with
+    | some o => pure (rest, { st with currentOrder := some o, smile := st.smile ++ [tok] })
+    | none =>
+      if tok == '%' || tok.isDigit then
+        let (run, after) := ringRun (tok :: rest)
+        pure (after, { st with smile := st.smile ++ run, currentOrder := none })
+      else if pyStrIn [tok] passThroughChars then
+        pure (rest, { st with smile := st.smile ++ [tok] })
+      else if pyStrIn [tok] ezChars then
+        pure (rest, { st with ez := pySet (pySet st.ez st.nodeCount tok) st.prevNode tok })
+      else
+        let two := match rest with
+          | c :: _ => twoLetterElements.contains [tok, c]
+          | [] => false
+        let (txt, after) := if two then ([tok] ++ rest.take 1, rest.drop 1) else ([tok], rest)
+        pure (after, { st with smile := st.smile ++ txt, currentOrder := none,
+                               prevNode := st.nodeCount, nodeCount := st.nodeCount + 1 })
+
 def stripAux : Nat → Str → StripState → Py StripState
   | 0, _, st => pure st
   | _ + 1, [], st => pure st
-  | fuel + 1, tok :: rest, st =>
-    if tok == '[' then
-      match rest with
-      | [] => throw PyErr.other                        -- next() on the exhausted iterator
-      | pk :: rest' =>
-        if descriptorKinds.contains pk then
-          match takeBracket rest' with
-          | none => throw PyErr.other
-          | some (label, after) =>
-            let desc := pk :: label
-            -- leading descriptor: the order symbol follows it
-            let leading := match after with
-              | c :: after' => if st.nodeCount == 0 then (bondToOrder2.lookup c).map fun o => (o, after') else none
-              | [] => none
-            match leading with
-            | some (o, after') =>
-              stripAux fuel after' { st with bonding := appendDesc st.bonding st.prevNode (desc ++ orderText o) }
-            | none =>
-              match st.currentOrder with
-              | some o =>
-                stripAux fuel after { st with bonding := appendDesc st.bonding st.prevNode (desc ++ orderText o),
-                                              currentOrder := none, smile := st.smile.dropLast }
-              | none =>
-                stripAux fuel after { st with bonding := appendDesc st.bonding st.prevNode (desc ++ orderText 2) }
-        else
-          match takeBracket (pk :: rest') with
-          | none => throw PyErr.other
-          | some (inner, after) => do
-            let (atom, annoStr) := splitAtomAnno inner
-            let a ← parseFrag annoStr
-            let old := (st.attrs.lookup st.nodeCount).getD []
-            let merged := a.foldl (fun acc (k, v) => pySet acc k v) old
-            stripAux fuel after { st with attrs := pySet st.attrs st.nodeCount merged,
-                                          smile := st.smile ++ ['['] ++ atom ++ [']'],
-                                          prevNode := st.nodeCount, nodeCount := st.nodeCount + 1, currentOrder := none }
-    else if tok == '(' then
-      stripAux fuel rest { st with anchor := st.anchor ++ [st.prevNode], smile := st.smile ++ [tok] }
-    else if tok == ')' then
-      match st.anchor.getLast? with
-      | none => throw PyErr.index
-      | some a => stripAux fuel rest { st with prevNode := a, anchor := st.anchor.dropLast, smile := st.smile ++ [tok] }
-    else match bondToOrder2.lookup tok with
-      | some o => stripAux fuel rest { st with currentOrder := some o, smile := st.smile ++ [tok] }
-      | none =>
-        if tok == '%' || tok.isDigit then
-          let (run, after) := ringRun (tok :: rest)
-          stripAux fuel after { st with smile := st.smile ++ run, currentOrder := none }
-        else if pyStrIn [tok] passThroughChars then
-          stripAux fuel rest { st with smile := st.smile ++ [tok] }
-        else if pyStrIn [tok] ezChars then
-          stripAux fuel rest { st with ez := pySet (pySet st.ez st.nodeCount tok) st.prevNode tok }
-        else
-          let two := match rest with
-            | c :: _ => twoLetterElements.contains [tok, c]
-            | [] => false
-          let (txt, after) := if two then ([tok] ++ rest.take 1, rest.drop 1) else ([tok], rest)
-          stripAux fuel after { st with smile := st.smile ++ txt, currentOrder := none,
-                                        prevNode := st.nodeCount, nodeCount := st.nodeCount + 1 }
+  | fuel + 1, tok :: rest, st => do
+    let (rest', st') ← stripStep tok rest st
+    stripAux fuel rest' st'
 
 /-- `strip_bonding_descriptors(fragment_string)` -/
 def strip (s : Str) : Py StripOut := do
